@@ -388,11 +388,77 @@ pub fn real_shapes_program() -> Program {
             ("big", Ty::Named(3, vec![])),
             ("ten", Ty::Tuple(vec![U8, U16, U32, U8, U16, U32, U8, U16, U32, Ty::Named(2, vec![])])),
             ("a64", Ty::Array(b(U8), 64)),
+            // lengths that are neither small nor a multiple of a power of two
+            ("a33", Ty::Array(b(U8), 33)),
+            ("a65", Ty::Array(b(U8), 65)),
+            ("a100", Ty::Array(b(Ty::Tuple(vec![U8, Ty::Prim(Prim::Bool)])), 100)),
             ("a256", Ty::Array(b(Ty::Named(2, vec![])), 256)),
             ("bounded", Ty::Named(0, vec![Ty::Named(2, vec![]), Ty::Named(1, vec![]), U8])),
         ]),
     ));
     Program { defs, roots: vec![Ty::Named(4, vec![])] }
+}
+
+/// D-deep: depth instead of width - a module path ten segments deep, the helper generic nested five times, and a
+/// chain of forty-eight structs each wrapping the next (the last one holds the five-fold generic); the root also has
+/// a field of ten nested `Vec`s and one of ten mixed wrappers.
+pub fn deep_program() -> Program {
+    let mods = ["p", "d1", "d2", "d3", "d4", "d5", "d6", "d7", "d8", "d9"];
+    let mut defs = vec![Def::strukt(&mods, "G", &["T"], named(vec![("g", Ty::Param(0))]))];
+    let mut nested = U8;
+    for _ in 0..5 {
+        nested = Ty::Named(0, vec![nested]);
+    }
+    // S47 { f: G<G<G<G<G<u8>>>>>, n: u8 }, S46 { f: S47, n: u8 } ... S0
+    for i in (0..48usize).rev() {
+        let inner = if i == 47 { nested.clone() } else { Ty::Named(defs.len() - 1, vec![]) };
+        defs.push(Def::strukt(&mods[..(1 + i % 10)], &format!("S{i}"), &[], named(vec![("f", inner), ("n", U8)])));
+    }
+    let chain = defs.len() - 1;
+    let mut vecs = U8;
+    for _ in 0..10 {
+        vecs = Ty::Vec(b(vecs));
+    }
+    let mut mixed = Ty::Prim(Prim::Bool);
+    for i in 0..10 {
+        mixed = match i % 4 {
+            0 => Ty::Vec(b(mixed)),
+            1 => Ty::Option(b(mixed)),
+            2 => Ty::Tuple(vec![U8, mixed]),
+            _ => Ty::Array(b(mixed), 2),
+        };
+    }
+    defs.push(Def::enm(
+        &["p", "d1"],
+        "DeepRoot",
+        &[],
+        vec![variant("A", Fields::Named(vec![("chain".into(), Field::new(Ty::Named(chain, vec![]))), ("vecs".into(), Field::new(vecs))])), variant("B", Fields::Unnamed(vec![Field::new(mixed)]))],
+    ));
+    let root = defs.len() - 1;
+    Program { defs, roots: vec![Ty::Named(root, vec![])] }
+}
+
+/// Degenerate registries: nothing at all, a single primitive, only prelude types, a struct whose only field is
+/// `()`, an enum whose only variant has no fields, a tuple struct of one one-element tuple.
+pub fn degenerate_programs() -> Vec<(String, Program)> {
+    let mut v = vec![
+        ("empty registry".to_string(), Program { defs: vec![], roots: vec![] }),
+        ("a single primitive".to_string(), Program { defs: vec![], roots: vec![U8] }),
+        ("only prelude types".to_string(), Program { defs: vec![], roots: vec![Ty::Option(b(Ty::Vec(b(U8)))), Ty::BTreeMap(b(U8), b(Ty::Prim(Prim::Str)))] }),
+    ];
+    let one = |name: &str, def: Def| (name.to_string(), Program { defs: vec![def], roots: vec![Ty::Named(0, vec![])] });
+    v.push(one("a struct whose only field is ()", Def::strukt(&["p", "z"], "OnlyUnit", &[], named(vec![("u", Ty::Tuple(vec![]))]))));
+    v.push(one("an enum whose only variant has no fields", Def::enm(&["p", "z"], "OnlyNil", &[], vec![variant("Nil", Fields::Unit)])));
+    v.push(one("a tuple struct of one one-element tuple", Def::strukt(&["p", "z"], "Nest", &[], unnamed(vec![Ty::Tuple(vec![U8])]))));
+    v.push(one("a field-less struct", Def::strukt(&["p", "z"], "Nothing", &[], Fields::Unit)));
+    v
+}
+
+/// D-real, D-deep and the degenerate registries: single programs run next to the enumerated drivers.
+pub fn special_programs() -> Vec<(String, Program)> {
+    let mut v = vec![("D-real".to_string(), real_shapes_program()), ("D-deep".to_string(), deep_program())];
+    v.extend(degenerate_programs().into_iter().map(|(n, p)| (format!("degenerate: {n}"), p)));
+    v
 }
 
 /// All programs of one D-arms state.
